@@ -51,6 +51,7 @@ type Case struct {
 	Batch    int     `json:"batch"`
 	MaxRows  int     `json:"maxrows"`
 	StrKey   bool    `json:"strkey"`             // first key is a string instead of int64
+	Recycle  bool    `json:"recycle,omitempty"`  // row-reader inputs overwrite the byte arrays of the rows they returned at their next call
 	NoSchema bool    `json:"noschema,omitempty"` // MergeRowGroups derives the schema from the inputs (MergeNodes) instead of being given one
 	Layout   int     `json:"layout,omitempty"`   // position of an extra repeated column "m": 0 none, 1 between the keys, 2 before them, 3 after them
 }
@@ -127,6 +128,7 @@ func genCase(t *rapid.T) Case {
 	c.MaxRows = []int{0, 0, 100, 1000}[rapid.IntRange(0, 3).Draw(t, "maxrows")]
 	c.StrKey = rapid.IntRange(0, 3).Draw(t, "strkey") == 0
 	c.Layout = []int{0, 0, 0, 1, 1, 2, 3}[rapid.IntRange(0, 6).Draw(t, "layout")]
+	c.Recycle = rapid.Bool().Draw(t, "recycle")
 	c.NoSchema = rapid.IntRange(0, 4).Draw(t, "noschema") == 0
 	if rapid.IntRange(0, 3).Draw(t, "perm") == 0 {
 		for i := range c.Inputs {
@@ -300,6 +302,10 @@ func (c Case) build() [][]mrow {
 type chunked struct {
 	rows  []parquet.Row
 	chunk int
+	// recycle: the byte arrays of the rows handed out live in one scratch buffer that
+	// is overwritten by the next call (rows are only valid until the next ReadRows)
+	recycle bool
+	scratch []byte
 }
 
 func (r *chunked) ReadRows(dst []parquet.Row) (int, error) {
@@ -310,8 +316,27 @@ func (r *chunked) ReadRows(dst []parquet.Row) (int, error) {
 	if n > len(r.rows) {
 		n = len(r.rows)
 	}
+	if r.recycle {
+		for i := range r.scratch[:cap(r.scratch)] {
+			r.scratch[:cap(r.scratch)][i] = 0xEE
+		}
+		r.scratch = r.scratch[:0]
+	}
 	for i := 0; i < n; i++ {
 		dst[i] = append(dst[i][:0], r.rows[i]...)
+		if r.recycle {
+			for k, v := range dst[i] {
+				if v.Kind() == parquet.ByteArray && !v.IsNull() {
+					b := v.ByteArray()
+					if len(r.scratch)+len(b) > cap(r.scratch) {
+						continue // (never: the buffer is sized for a full chunk)
+					}
+					off := len(r.scratch)
+					r.scratch = append(r.scratch, b...)
+					dst[i][k] = parquet.ByteArrayValue(r.scratch[off:len(r.scratch):len(r.scratch)]).Level(v.RepetitionLevel(), v.DefinitionLevel(), v.Column())
+				}
+			}
+		}
 	}
 	r.rows = r.rows[n:]
 	if len(r.rows) == 0 {
@@ -362,7 +387,8 @@ func runCase(c Case, o *kit.Obs) *kit.Failure {
 			permuted = true
 		}
 		if c.Path == "readers" {
-			readers = append(readers, &chunked{rows: prows, chunk: c.Inputs[si].Chunk})
+			ch := c.Inputs[si].Chunk
+			readers = append(readers, &chunked{rows: prows, chunk: ch, recycle: c.Recycle, scratch: make([]byte, 0, (ch+1)*64)})
 			continue
 		}
 		if c.Inputs[si].Kind == "buffer" {
@@ -570,6 +596,7 @@ func runCase(c Case, o *kit.Obs) *kit.Failure {
 	o.ClassIf(overlap, "overlapping-inputs")
 	o.ClassIf(total >= 2048, "big")
 	o.Class(fmt.Sprintf("layout-%d", c.Layout))
+	o.ClassIf(c.Recycle && c.Path == "readers" && c.StrKey, "recycling-row-readers")
 	o.ClassIf(permuted, "input-with-reordered-fields")
 	if nonEmpty >= 2 && overlap && (c.Batch < total || c.Opt2 || c.TwoKeys) {
 		o.NonTrivial()
